@@ -41,6 +41,7 @@ def build():
                            capture_output=True, text=True)
         if r.returncode != 0:
             tool_error("javac failed: " + r.stderr[-500:])
+    subprocess.run(["python3", os.path.join(ROOT, "tools", "gen_auth.py")], stdout=subprocess.DEVNULL)
     env = dict(os.environ, CARGO_NET_OFFLINE="true")
     r = subprocess.run(["cargo", "build", "--offline"], cwd=HARN, capture_output=True, text=True, env=env)
     if r.returncode != 0:
@@ -112,6 +113,8 @@ def model_stage(pid, m, tier, seed):
         if r.returncode != 0:
             tool_error(f"seed script {m['setup']} failed on the real program: {r.stderr[-500:]}")
         menv["INIT_STATE"] = init
+    for k, v in m.get("env", {}).items():
+        menv[k] = os.path.join(SPEC, v)
     rc, _, dt = run_tlc(m["module"], cfg, workers, m.get("heap", "6g"), meta, extra=extra, env=menv,
                         timeout=m.get("timeout", {}).get(tier, 1500) if isinstance(m.get("timeout"), dict) else 1500,
                         out_path=out_path)
